@@ -333,10 +333,10 @@ def plan_C10(tier, seed):
         exhaustive=True, assumptions=["TLC", "Go runtime recover() / deadline as the observation of panics and hangs"])
 
 
-def infer_plan(prefix, tier, kinds, rule):
+def infer_plan(prefix, tier, kinds, rule, fams=("T", "S", "X")):
     k = 1 if tier == "quick" else 2
     jobs = [tlc("%s_%s" % (prefix, f), "MC_Infer", {"Family": q(f), "K": k, "CheckKnown": "FALSE"}, ["Sound", "SpecEq", "Emit"], workers=6)
-            for f in ("T", "S", "X")]
+            for f in fams]
     return dict(
         tlc=jobs, parallel=3,
         replay=[dict(name=prefix + "_replay", family="infer", inputs=[j["name"] for j in jobs], codegen=True, kinds=kinds)],
@@ -369,11 +369,18 @@ def plan_C09(tier, seed):
 
 
 def plan_C16(tier, seed):
-    return infer_plan("c16", tier, ["inferred-schema", "for-nondeterministic", "for-shares-nodes", "for-unresolvable", "for-error"],
+    return infer_plan("c16", tier, ["inferred-schema", "for-nondeterministic", "for-shares-nodes", "for-unresolvable", "for-error", "for-options"],
                       INFER_UNIVERSE + "C16: ForType twice: byte-equal, no shared *Schema (reflective walker), Resolve accepts, and the "
                       "marshaled schema equals InferSpec(T) rendered as a Schema literal (properties = encoding/json's dominant "
                       "fields, JSON names, field order via PropertyOrder, required iff no omitempty/omitzero, pointer adds null); "
-                      "TLC checks InferCode = InferSpec (SpecEq)")
+                      "TLC checks InferCode = InferSpec (SpecEq). Family O (ForOptions): unsupported kinds (chan, func, complex, "
+                      "non-string-keyed maps; plain, nested in slices/maps/pointers/arrays, as named types occurring once or several "
+                      "times) with IgnoreInvalidTypes off (error) and on (dropped); types containing themselves through pointers, "
+                      "slices, maps and nested structs (error, never a hang); a named type occurring several times (no false cycle); "
+                      "TypeSchemas entries with a type, with several types and without type, at field / pointer / slice / map "
+                      "positions and for structs embedded by value and by pointer: expected result from Infer.tla!InferOpt; results "
+                      "share no Schema object with the entries, which stay unchanged when a result is scribbled over",
+                      fams=("T", "S", "X", "O"))
 
 
 PLANS = {"C04": plan_C04, "C09": plan_C09, "C16": plan_C16, "C10": plan_C10, "C13": plan_C13, "C14": plan_C14, "C20": plan_C20, "C15": plan_C15, "C05": plan_C05, "C18": plan_C18, "C19": plan_C19, "C17": plan_C17, "C08": plan_C08, "C11": plan_C11, "C12": plan_C12, "C03": plan_C03, "C06": plan_C06, "C01": plan_C01, "C02": plan_C02, "C07": plan_C07}
